@@ -10,8 +10,38 @@ use crate::util::{Json, Rng};
 
 pub const C06_ELEMS: [&str; 7] = ["P8", "T24", "Z", "Z8", "B1", "L200", "B3"];
 
+/// HashTable of 2^18..2^20 buckets holding a few dozen elements (size-gated paths, wrap-around at the table end).
+fn huge_scenario<E: Elem>(c: &mut Ctx, rng: &mut Rng) {
+    use crate::plan::Plan;
+    let lg = *rng.pick(&[18u32, 18, 19, 20]);
+    let cap = (1usize << lg) / 8 * 7;
+    let plan = *rng.pick(&[Plan::Tail, Plan::Tail, Plan::Max, Plan::Mixed, Plan::Ident, Plan::SamePos]);
+    let mut d: TableDrv<E> = TableDrv::new(PlanBH::new(plan, rng.next()), 48, cap);
+    d.max_live = 60;
+    let mut desc = d.describe("C06 very large sparse table");
+    desc.set("buckets_log2", Json::i(lg));
+    c.describe(desc);
+    c.bump("huge_table_scenarios");
+    // no clone (op 14) on a table of this size; everything else incl. clear, drain, retain, extract_if
+    let w: [u32; crate::tabledrv::TNOPS] = [30, 10, 10, 5, 14, 14, 3, 3, 3, 4, 0, 3, 6, 2, 0, 1, 0, 2];
+    for _ in 0..40 {
+        if !d.step(c, rng, &w) {
+            break;
+        }
+    }
+    c.max("max_buckets", d.facts.buckets as u64);
+}
+
 pub fn run(c: &mut Ctx) {
     c.run_scenarios(|c, idx, rng| {
+        if crate::util::mix(idx) % 97 == 1 && !c.is_miri() {
+            if rng.chance(1, 2) {
+                huge_scenario::<crate::elem::P8>(c, rng);
+            } else {
+                huge_scenario::<crate::elem::T24>(c, rng);
+            }
+            return;
+        }
         let e = C06_ELEMS[(crate::util::mix(idx) % C06_ELEMS.len() as u64) as usize];
         for_elem!(e, scenario(c, idx, rng));
     });
